@@ -94,6 +94,7 @@ class SimEndpoint(object):
     def __init__(self, sim, triples, row_seed=0, faults=(), canonical_rows=False,
                  inconsistent=False, repeat_rows=False):
         self.sim = sim
+        self.expected_url = None            # when set: the only address under which this dataset answers
         self.graph = gen.to_rdflib_graph(triples)
         self.row_seed = row_seed
         self.canonical_rows = canonical_rows
@@ -192,6 +193,12 @@ class SimEndpoint(object):
                 pass
 
             def query(self):
+                if ep.expected_url is not None and self.url != ep.expected_url:
+                    # another address (e.g. the same host without its ?default-graph-uri=...): another dataset, which
+                    # here holds nothing
+                    ep.sim.probes["endpoint_addressed_elsewhere"] += 1
+                    ep.sim.log.add("query", "elsewhere", _abbr(self.url))
+                    return _FakeResult({"head": {"vars": []}, "results": {"bindings": []}})
                 return ep.serve(self._q)
         return SimSPARQLWrapper
 
@@ -518,6 +525,17 @@ class _GzipSeam(object):
         return getattr(real_gzip, name)
 
 
+def _xz_seam(fs):
+    """stands in for `xzopen` inside shexer.io.line_reader.xz_line_reader: lines pass the armed read fault; a reader that
+    runs on a thread other than the caller's is a slow peer - it stalls once in mid-stream (real time: a consumer that
+    waits for it with a timeout measures real time too; never happens on the shipped code, which reads on the caller's thread)"""
+    import xz as real_xz
+
+    def xzopen(path, mode="r", *a, **k):
+        return _GzLines(fs, real_xz.open(path, mode, *a, **k), str(path), kind="xz", stall=True)
+    return xzopen
+
+
 def _zip_seam(fs):
     """stands in for `ZipFile` inside shexer.utils.factories.triple_yielders_factory: members opened from such an archive
     deliver their lines through the armed read fault (SimFS.read_fault_left, counted in lines) like plain files do"""
@@ -533,8 +551,10 @@ def _zip_seam(fs):
 
 
 class _GzLines(object):
-    def __init__(self, fs, real, path, kind="gz"):
-        self.fs, self.real, self.path, self.kind = fs, real, path, kind
+    STALL_S = 1.2
+
+    def __init__(self, fs, real, path, kind="gz", stall=False):
+        self.fs, self.real, self.path, self.kind, self.stall = fs, real, path, kind, stall
 
     def __enter__(self):
         return self
@@ -544,7 +564,13 @@ class _GzLines(object):
 
     def __iter__(self):
         fs = self.fs
-        for l in self.real:
+        import threading
+        foreign = self.stall and threading.current_thread() is not threading.main_thread()
+        for n, l in enumerate(self.real):
+            if foreign and n == 1:
+                import time as _time
+                fs.sim.faults["source_stalled_on_foreign_thread"] += 1
+                _time.sleep(self.STALL_S)
             if fs.read_fault_left == 0:
                 fs.read_fault_left = -1
                 fs.sim.faults["source_%s_%s" % (self.kind, fs.read_errno.lower())] += 1
@@ -703,6 +729,9 @@ class Sim(object):
         import shexer.utils.factories.triple_yielders_factory as tyf
         self._saved_zipfile = tyf.ZipFile
         tyf.ZipFile = _zip_seam(self.fs)
+        import shexer.io.line_reader.xz_line_reader as xzr
+        self._saved_xzopen = xzr.xzopen
+        xzr.xzopen = _xz_seam(self.fs)
         import shexer.io.shex.formater.shex_serializer as ss
         import shexer.core.instances.abstract_instance_tracker as ait
         import rdflib.parser as rp
@@ -735,6 +764,8 @@ class Sim(object):
         gzr.gzip = self._saved_gzip
         import shexer.utils.factories.triple_yielders_factory as tyf
         tyf.ZipFile = self._saved_zipfile
+        import shexer.io.line_reader.xz_line_reader as xzr
+        xzr.xzopen = self._saved_xzopen
         import shexer.io.shex.formater.shex_serializer as ss
         import rdflib.parser as rp
         s = self._saved
